@@ -1,8 +1,566 @@
-import DryocVerif.Model.SecretBox
+import DryocVerif.Proofs.SecretBox
+import DryocVerif.Spec.NaCl
+/-
+C01 — secretbox / box / sealed box: every open ∘ seal pairing is the identity, all API forms
+produce one wire format, and that wire format is the NaCl construction.
+
+All theorems hold for every instantiation `P : Prims` of the primitives; the only hypotheses are
+`WF P` (stream returns the requested number of bytes, authenticators are 16 bytes), the sizing of
+caller-provided buffers, and — only where two different key pairs meet — the explicit
+Diffie-Hellman agreement `P.dh ssk rpk = P.dh rsk spk`.
+Helper lemmas live in `DryocVerif/Proofs/SecretBox.lean`.
+-/
 namespace DryocVerif.Properties.C01
 open DryocVerif DryocVerif.Model.SecretBox
+open DryocVerif.Proofs.SecretBox
+
+/-! ## 1. xor involution -/
+
+/-- xor with a key stream at least as long as the message is an involution -/
+theorem xorBytes_involution (m ks : Bytes) (h : m.length ≤ ks.length) :
+    xorBytes (xorBytes m ks) ks = m :=
+  Proofs.SecretBox.xorBytes_involution m ks h
+
+/-! ## 2. round trips: classic secretbox API -/
+
+/-- `crypto_secretbox_open_easy ∘ crypto_secretbox_easy = id` -/
+theorem open_seal_easy (P : Prims) (wf : WF P) (ct0 buf m n k ct : Bytes)
+    (hct0 : ct0.length = m.length + 16) (hbuf : buf.length = m.length)
+    (hseal : easy P ct0 m n k = .ok ct) :
+    openEasy P buf ct n k = ⟨.ok (), m⟩ := by
+  rw [easy_eq P ct0 m n k hct0] at hseal
+  injection hseal with hseal
+  subst hseal
+  rw [openEasy_sealed wf buf m n k (by omega), drop_length_eq_nil hbuf, List.append_nil]
+
+/-- the same with an over-long message buffer: the message lands in front, the rest of the
+caller's buffer is untouched -/
+theorem open_seal_easy_oversized (P : Prims) (wf : WF P) (ct0 buf m n k ct : Bytes)
+    (hct0 : ct0.length = m.length + 16) (hbuf : m.length ≤ buf.length)
+    (hseal : easy P ct0 m n k = .ok ct) :
+    openEasy P buf ct n k = ⟨.ok (), m ++ buf.drop m.length⟩ := by
+  rw [easy_eq P ct0 m n k hct0] at hseal
+  injection hseal with hseal
+  subst hseal
+  exact openEasy_sealed wf buf m n k hbuf
+
+/-- `crypto_secretbox_open_detached ∘ crypto_secretbox_detached = id` -/
+theorem open_seal_detached (P : Prims) (wf : WF P) (ct0 buf m n k c tag : Bytes)
+    (hct0 : ct0.length = m.length) (hbuf : buf.length = m.length)
+    (hseal : detached P ct0 m n k = .ok (c, tag)) :
+    openDetached P buf tag c n k = ⟨.ok (), m⟩ := by
+  rw [detached_eq P ct0 m n k hct0] at hseal
+  injection hseal with hseal
+  injection hseal with hc ht
+  subst hc ht
+  rw [openDetached_sealed wf buf m n k (by omega), drop_length_eq_nil hbuf, List.append_nil]
+
+/-- `crypto_secretbox_open_easy_inplace ∘ crypto_secretbox_easy_inplace`: the caller passes
+`m ‖ t` (any 16 spare bytes `t`); after opening, the buffer is `m ‖ tag` where `tag` is the
+16-byte authenticator that headed the ciphertext. -/
+theorem open_seal_easyInplace (P : Prims) (wf : WF P) (m t n k ct : Bytes)
+    (ht : t.length = 16)
+    (hseal : easyInplace P (m ++ t) n k = .ok ct) :
+    openEasyInplace P ct n k = ⟨.ok (), m ++ ct.take 16⟩ := by
+  rw [easyInplace_eq P m t n k ht] at hseal
+  injection hseal with hseal
+  subst hseal
+  rw [openEasyInplace_sealed wf m n k, (combined_parts (sealTag_length wf k n m)).1]
+
+/-- `crypto_secretbox_open_detached_inplace ∘ crypto_secretbox_detached_inplace = id` -/
+theorem open_seal_detachedInplace (P : Prims) (wf : WF P) (m n k c tag : Bytes)
+    (hseal : detachedInplace P m n k = (c, tag)) :
+    openDetachedInplace P c tag n k = ⟨.ok (), m⟩ := by
+  rw [detachedInplace_eq] at hseal
+  injection hseal with hc ht
+  subst hc ht
+  exact openDetachedInplace_sealed wf m n k
+
+/-! ## round trips: classic box API (same key material on both sides: no DH fact needed) -/
+
+theorem open_seal_boxEasy (P : Prims) (wf : WF P) (ct0 buf m n pk sk ct : Bytes)
+    (hct0 : ct0.length = m.length + 16) (hbuf : buf.length = m.length)
+    (hseal : boxEasy P ct0 m n pk sk = .ok ct) :
+    boxOpenEasy P buf ct n pk sk = ⟨.ok (), m⟩ := by
+  rw [boxEasy_eq_easy P ct0 m n pk sk (by omega)] at hseal
+  exact open_seal_easy P wf ct0 buf m n _ ct hct0 hbuf hseal
+
+theorem open_seal_boxDetached (P : Prims) (wf : WF P) (ct0 buf m n pk sk c tag : Bytes)
+    (hct0 : ct0.length = m.length) (hbuf : buf.length = m.length)
+    (hseal : boxDetached P ct0 m n pk sk = .ok (c, tag)) :
+    boxOpenDetached P buf tag c n pk sk = ⟨.ok (), m⟩ :=
+  open_seal_detached P wf ct0 buf m n _ c tag hct0 hbuf hseal
+
+theorem open_seal_boxEasyInplace (P : Prims) (wf : WF P) (m t n pk sk ct : Bytes)
+    (ht : t.length = 16)
+    (hseal : boxEasyInplace P (m ++ t) n pk sk = .ok ct) :
+    boxOpenEasyInplace P ct n pk sk = ⟨.ok (), m ++ ct.take 16⟩ := by
+  rw [boxEasyInplace_eq_easyInplace P (m ++ t) n pk sk (by simp; omega)] at hseal
+  exact open_seal_easyInplace P wf m t n _ ct ht hseal
+
+theorem open_seal_boxDetachedInplace (P : Prims) (wf : WF P) (m n pk sk c tag : Bytes)
+    (hseal : boxDetachedInplace P m n pk sk = (c, tag)) :
+    boxOpenDetachedInplace P c tag n pk sk = ⟨.ok (), m⟩ :=
+  open_seal_detachedInplace P wf m n _ c tag hseal
+
+/-- Sender `(spk, ssk)` seals to `rpk`, recipient `(rpk, rsk)` opens from `spk`: the round trip
+holds under the explicit Diffie-Hellman agreement of the two shared secrets. -/
+theorem box_open_seal_of_dh_comm (P : Prims) (wf : WF P) (ct0 buf m n spk ssk rpk rsk ct : Bytes)
+    (hdh : P.dh ssk rpk = P.dh rsk spk)
+    (hct0 : ct0.length = m.length + 16) (hbuf : buf.length = m.length)
+    (hseal : boxEasy P ct0 m n rpk ssk = .ok ct) :
+    boxOpenEasy P buf ct n spk rsk = ⟨.ok (), m⟩ := by
+  have hk : beforenm P spk rsk = beforenm P rpk ssk := by simp only [beforenm, hdh]
+  rw [boxOpenEasy_eq_openEasy, hk]
+  exact open_seal_boxEasy P wf ct0 buf m n rpk ssk ct hct0 hbuf hseal
+
+/-- detached form of the previous theorem -/
+theorem boxDetached_open_seal_of_dh_comm (P : Prims) (wf : WF P)
+    (ct0 buf m n spk ssk rpk rsk c tag : Bytes)
+    (hdh : P.dh ssk rpk = P.dh rsk spk)
+    (hct0 : ct0.length = m.length) (hbuf : buf.length = m.length)
+    (hseal : boxDetached P ct0 m n rpk ssk = .ok (c, tag)) :
+    boxOpenDetached P buf tag c n spk rsk = ⟨.ok (), m⟩ := by
+  have hk : beforenm P spk rsk = beforenm P rpk ssk := by simp only [beforenm, hdh]
+  unfold boxOpenDetached
+  rw [hk]
+  exact open_seal_boxDetached P wf ct0 buf m n rpk ssk c tag hct0 hbuf hseal
+
+/-- `crypto_box_seal_open ∘ crypto_box_seal = id`.  Sealing uses the ephemeral secret `esk`
+against `rpk`; opening uses `rsk` against the transmitted ephemeral public key, so here the
+Diffie-Hellman agreement `hdh` is unavoidable; `hpk` (public keys are 32 bytes) is what lets the
+recipient split `epk ‖ box` at byte 32. -/
+theorem open_seal_boxSeal (P : Prims) (wf : WF P) (ct0 buf m rpk rsk esk ct : Bytes)
+    (hpk : (P.dhBase esk).length = 32)
+    (hdh : P.dh esk rpk = P.dh rsk (P.dhBase esk))
+    (hct0 : ct0.length = m.length + 48) (hbuf : buf.length = m.length)
+    (hseal : boxSeal P ct0 m rpk esk = .ok ct) :
+    sealOpen P buf ct rpk rsk = ⟨.ok (), m⟩ := by
+  rw [boxSeal_eq P ct0 m rpk esk hct0] at hseal
+  injection hseal with hseal
+  subst hseal
+  have hk : beforenm P (P.dhBase esk) rsk = beforenm P rpk esk := by simp only [beforenm, hdh]
+  have ht : (P.dhBase esk ++ (sealTag P (beforenm P rpk esk) (sealNonce P (P.dhBase esk) rpk) m
+      ++ cryptXor P (beforenm P rpk esk) (sealNonce P (P.dhBase esk) rpk) m)).take 32
+        = P.dhBase esk := List.take_left' hpk
+  have hd : (P.dhBase esk ++ (sealTag P (beforenm P rpk esk) (sealNonce P (P.dhBase esk) rpk) m
+      ++ cryptXor P (beforenm P rpk esk) (sealNonce P (P.dhBase esk) rpk) m)).drop 32
+        = sealTag P (beforenm P rpk esk) (sealNonce P (P.dhBase esk) rpk) m
+          ++ cryptXor P (beforenm P rpk esk) (sealNonce P (P.dhBase esk) rpk) m :=
+    List.drop_left' hpk
+  obtain ⟨-, -, h3⟩ := combined_parts
+    (c := cryptXor P (beforenm P rpk esk) (sealNonce P (P.dhBase esk) rpk) m)
+    (sealTag_length wf (beforenm P rpk esk) (sealNonce P (P.dhBase esk) rpk) m)
+  have hl := cryptXor_length wf (beforenm P rpk esk) (sealNonce P (P.dhBase esk) rpk) m
+  have hlen : (P.dhBase esk ++ (sealTag P (beforenm P rpk esk) (sealNonce P (P.dhBase esk) rpk) m
+      ++ cryptXor P (beforenm P rpk esk) (sealNonce P (P.dhBase esk) rpk) m)).length
+        = m.length + 48 := by
+    rw [List.length_append, h3, hl, hpk]; omega
+  have h1 : ¬ m.length + 48 < SEALBYTES := by simp [SEALBYTES]
+  have h2 : ¬ buf.length ≠ m.length + 48 - SEALBYTES := by simp [SEALBYTES]; omega
+  unfold sealOpen
+  simp only [hlen, h1, h2, if_false, ht, hd, boxOpenEasy_eq_openEasy, hk]
+  rw [openEasy_sealed wf buf m _ _ (by omega), drop_length_eq_nil hbuf, List.append_nil]
+
+/-! ## round trips: object layer -/
+
+/-- `DryocSecretBox::decrypt ∘ DryocSecretBox::encrypt = id` -/
+theorem open_seal_obj (P : Prims) (wf : WF P) (m n k : Bytes) (b : Box)
+    (hseal : objEncrypt P m n k = .ok b) :
+    objDecrypt P b n k = .ok m := by
+  rw [objEncrypt_eq] at hseal
+  injection hseal with hseal
+  subst hseal
+  simp only [objDecrypt_eq, sealTag_eq_expectedTag wf, if_true, cryptXor_cryptXor wf]
+
+/-- `DryocBox::decrypt ∘ DryocBox::encrypt = id` (same key material on both sides) -/
+theorem open_seal_objBox (P : Prims) (wf : WF P) (m n pk sk : Bytes) (b : Box)
+    (hseal : objBoxEncrypt P m n pk sk = .ok b) :
+    objBoxDecrypt P b n pk sk = .ok m :=
+  open_seal_obj P wf m n _ b hseal
+
+/-- `DryocBox` with sender `(spk, ssk)` / recipient `(rpk, rsk)` under DH agreement -/
+theorem objBox_open_seal_of_dh_comm (P : Prims) (wf : WF P) (m n spk ssk rpk rsk : Bytes) (b : Box)
+    (hdh : P.dh ssk rpk = P.dh rsk spk)
+    (hseal : objBoxEncrypt P m n rpk ssk = .ok b) :
+    objBoxDecrypt P b n spk rsk = .ok m := by
+  have hk : beforenm P spk rsk = beforenm P rpk ssk := by simp only [beforenm, hdh]
+  unfold objBoxDecrypt
+  rw [hk]
+  exact open_seal_objBox P wf m n rpk ssk b hseal
+
+/-- `DryocBox::unseal ∘ DryocBox::seal = id` (DH agreement between the ephemeral and the
+recipient key pair, as for `open_seal_boxSeal`; no length fact is needed: the object keeps the
+ephemeral public key in its own field). -/
+theorem open_seal_objSeal (P : Prims) (wf : WF P) (m rpk rsk esk : Bytes) (b : Box)
+    (hdh : P.dh esk rpk = P.dh rsk (P.dhBase esk))
+    (hseal : objSeal P m rpk esk = .ok b) :
+    objUnseal P b rpk rsk = .ok m := by
+  rw [objSeal_eq] at hseal
+  injection hseal with hseal
+  subst hseal
+  have hk : beforenm P (P.dhBase esk) rsk = beforenm P rpk esk := by simp only [beforenm, hdh]
+  simp only [objUnseal_eq, hk, sealTag_eq_expectedTag wf, if_true, cryptXor_cryptXor wf]
+
+/-- `from_bytes ∘ to_bytes = id` on boxes without ephemeral key (16-byte tag) -/
+theorem fromBytes_toBytes (b : Box) (hepk : b.epk = none) (htag : b.tag.length = 16) :
+    fromBytes (toBytes b) = .ok b := by
+  obtain ⟨epk, tag, data⟩ := b
+  simp only at hepk htag
+  subst hepk
+  obtain ⟨h1, h2, h3⟩ := combined_parts (c := data) htag
+  have h4 : ¬ data.length + 16 < MACBYTES := by simp [MACBYTES]
+  simp only [fromBytes, toBytes, MACBYTES, h1, h2, h3] at h4 ⊢
+  simp only [h4, if_false]
+
+/-- `to_bytes ∘ from_bytes = id` -/
+theorem toBytes_fromBytes (bs : Bytes) (b : Box) (h : fromBytes bs = .ok b) : toBytes b = bs := by
+  unfold fromBytes at h
+  split at h
+  · cases h
+  · injection h with h
+    subst h
+    simp [toBytes]
+
+/-- `from_sealed_bytes ∘ to_bytes = id` on sealed boxes (32-byte ephemeral key, 16-byte tag) -/
+theorem fromSealedBytes_toBytes (b : Box) (e : Bytes) (hepk : b.epk = some e)
+    (he : e.length = 32) (htag : b.tag.length = 16) :
+    fromSealedBytes (toBytes b) = .ok b := by
+  obtain ⟨epk, tag, data⟩ := b
+  simp only at hepk htag
+  subst hepk
+  have h1 : (e ++ tag ++ data).take 32 = e := by
+    rw [List.append_assoc]; exact List.take_left' he
+  have h2 : (e ++ tag ++ data).drop 32 = tag ++ data := by
+    rw [List.append_assoc]; exact List.drop_left' he
+  have h3 : (e ++ tag ++ data).drop 48 = data := List.drop_left' (by simp; omega)
+  have h4 : ¬ (e ++ tag ++ data).length < 48 := by simp; omega
+  simp only [fromSealedBytes, toBytes, SEALBYTES, h4, if_false, h1, h2, h3, MACBYTES,
+    List.take_left' htag]
+
+/-! ## 3. all forms produce one wire format -/
+
+/-- `easy` = tag ‖ (the ciphertext of `detached`), whatever (correctly sized) buffers are passed -/
+theorem forms_agree_easy_detached (P : Prims) (ct0 ct1 m n k c tag : Bytes)
+    (hct0 : ct0.length = m.length + 16) (hct1 : ct1.length = m.length)
+    (hd : detached P ct1 m n k = .ok (c, tag)) :
+    easy P ct0 m n k = .ok (tag ++ c) := by
+  rw [detached_eq P ct1 m n k hct1] at hd
+  injection hd with hd
+  injection hd with hc ht
+  subst hc ht
+  exact easy_eq P ct0 m n k hct0
+
+/-- `detached` = `detachedInplace` on the message -/
+theorem forms_agree_detached_detachedInplace (P : Prims) (ct0 m n k : Bytes)
+    (hct0 : ct0.length = m.length) :
+    detached P ct0 m n k = .ok (detachedInplace P m n k) := by
+  rw [detached_eq P ct0 m n k hct0, detachedInplace_eq]
+
+/-- `easyInplace` on `m ‖ t` (16 spare bytes) = `easy` into any correctly sized buffer -/
+theorem forms_agree_easyInplace_easy (P : Prims) (ct0 m t n k : Bytes)
+    (hct0 : ct0.length = m.length + 16) (ht : t.length = 16) :
+    easyInplace P (m ++ t) n k = easy P ct0 m n k := by
+  rw [easyInplace_eq P m t n k ht, easy_eq P ct0 m n k hct0]
+
+/-- … in particular with zero-filled buffers -/
+theorem forms_agree_easyInplace_easy_zeros (P : Prims) (m n k : Bytes) :
+    easyInplace P (m ++ zeros 16) n k = easy P (zeros (m.length + 16)) m n k :=
+  forms_agree_easyInplace_easy P _ m _ n k (by simp [zeros]) (by simp [zeros])
+
+/-- `crypto_box_easy` = `crypto_secretbox_easy` under the precomputed key -/
+theorem forms_agree_boxEasy_easy (P : Prims) (ct0 m n pk sk : Bytes) (hct0 : 16 ≤ ct0.length) :
+    boxEasy P ct0 m n pk sk = easy P ct0 m n (beforenm P pk sk) :=
+  boxEasy_eq_easy P ct0 m n pk sk hct0
+
+/-- (with a buffer shorter than a tag the two differ: `Err` versus a slice panic) -/
+theorem boxEasy_short_buffer (P : Prims) (ct0 m n pk sk : Bytes) (hct0 : ct0.length < 16) :
+    boxEasy P ct0 m n pk sk = .err ∧ easy P ct0 m n (beforenm P pk sk) = .panic := by
+  simp [boxEasy, easy, MACBYTES, hct0]
+
+theorem forms_agree_boxDetached_detached (P : Prims) (ct0 m n pk sk : Bytes) :
+    boxDetached P ct0 m n pk sk = detached P ct0 m n (beforenm P pk sk) := rfl
+
+theorem forms_agree_boxEasyInplace_easyInplace (P : Prims) (d n pk sk : Bytes)
+    (hd : 16 ≤ d.length) :
+    boxEasyInplace P d n pk sk = easyInplace P d n (beforenm P pk sk) :=
+  boxEasyInplace_eq_easyInplace P d n pk sk hd
+
+/-- sealed box = ephemeral public key ‖ box under `(rpk, esk)` with the derived nonce -/
+theorem forms_agree_boxSeal_boxEasy (P : Prims) (ct0 ct1 m rpk esk c : Bytes)
+    (hct0 : ct0.length = m.length + 48) (hct1 : ct1.length = m.length + 16)
+    (hb : boxEasy P ct1 m (sealNonce P (P.dhBase esk) rpk) rpk esk = .ok c) :
+    boxSeal P ct0 m rpk esk = .ok (P.dhBase esk ++ c) := by
+  rw [boxEasy_eq_easy P ct1 m _ rpk esk (by omega), easy_eq P ct1 m _ _ hct1] at hb
+  injection hb with hb
+  subst hb
+  exact boxSeal_eq P ct0 m rpk esk hct0
+
+/-- `to_bytes (DryocSecretBox::encrypt …)` = `crypto_secretbox_easy …` -/
+theorem forms_agree_obj_easy (P : Prims) (ct0 m n k : Bytes) (b : Box)
+    (hct0 : ct0.length = m.length + 16) (hb : objEncrypt P m n k = .ok b) :
+    easy P ct0 m n k = .ok (toBytes b) := by
+  rw [objEncrypt_eq] at hb
+  injection hb with hb
+  subst hb
+  exact easy_eq P ct0 m n k hct0
+
+/-- the object layer never fails on encryption -/
+theorem objEncrypt_ok (P : Prims) (m n k : Bytes) : ∃ b, objEncrypt P m n k = .ok b :=
+  ⟨_, objEncrypt_eq P m n k⟩
+
+/-- `to_bytes (DryocBox::seal …)` = `crypto_box_seal …` -/
+theorem forms_agree_objSeal_boxSeal (P : Prims) (ct0 m rpk esk : Bytes) (b : Box)
+    (hct0 : ct0.length = m.length + 48) (hb : objSeal P m rpk esk = .ok b) :
+    boxSeal P ct0 m rpk esk = .ok (toBytes b) := by
+  rw [objSeal_eq] at hb
+  injection hb with hb
+  subst hb
+  rw [boxSeal_eq P ct0 m rpk esk hct0]
+  simp [toBytes]
+
+/-- `VecBox::into_vec` (resize, rotate, copy tag) = `to_vec` for a box without ephemeral key -/
+theorem forms_agree_intoVec_toBytes (b : Box) (hepk : b.epk = none) : intoVec b = toBytes b := by
+  have h := rotateRight_append_zeros b.data
+  have h2 : (zeros 16 ++ b.data).drop 16 = b.data := List.drop_left' (by simp [zeros])
+  simp only [intoVec, toBytes, MACBYTES, h, h2, hepk]
 
 /-- `to_bytes` of a box without ephemeral key is `tag ‖ data` (libsodium's combined layout) -/
 theorem toBytes_layout (tag data : Bytes) : toBytes ⟨none, tag, data⟩ = tag ++ data := rfl
+
+theorem rotateRight_append_zeros (m : Bytes) : rotateRight (m ++ zeros 16) 16 = zeros 16 ++ m :=
+  Proofs.SecretBox.rotateRight_append_zeros m
+
+theorem rotateRight_append (m t : Bytes) : rotateRight (m ++ t) t.length = t ++ m :=
+  Proofs.SecretBox.rotateRight_append m t
+
+theorem rotateLeft_append (t d : Bytes) : rotateLeft (t ++ d) t.length = d ++ t :=
+  Proofs.SecretBox.rotateLeft_append t d
+
+/-! ## 4. the model, instantiated with the specification primitives, is the NaCl construction -/
+
+/-- the primitive parameters instantiated with the executable specifications -/
+def specPrims : Prims where
+  stream := fun k n l => Spec.Salsa20.xsalsa20Stream k n 0 l
+  mac := Spec.Poly1305.mac
+  dh := Spec.X25519.x25519
+  dhBase := Spec.X25519.x25519Base
+  hsalsa := fun k i => Spec.Salsa20.hsalsa20 k i
+  h24 := fun m => Spec.Blake2b.hash 24 [] m
+
+theorem model_eq_spec_easy (m n k : Bytes) :
+    easy specPrims (zeros (m.length + 16)) m n k = .ok (Spec.NaCl.secretbox k n m) := by
+  rw [easy_eq specPrims _ m n k (by simp [zeros])]
+  rfl
+
+/-- … for every correctly sized caller buffer -/
+theorem model_eq_spec_easy' (ct0 m n k : Bytes) (hct0 : ct0.length = m.length + 16) :
+    easy specPrims ct0 m n k = .ok (Spec.NaCl.secretbox k n m) := by
+  rw [easy_eq specPrims _ m n k hct0]
+  rfl
+
+theorem model_eq_spec_beforenm (pk sk : Bytes) :
+    beforenm specPrims pk sk = Spec.NaCl.beforenm pk sk := rfl
+
+theorem model_eq_spec_sealNonce (epk rpk : Bytes) :
+    sealNonce specPrims epk rpk = Spec.NaCl.sealNonce epk rpk := rfl
+
+theorem model_eq_spec_boxEasy (m n pk sk : Bytes) :
+    boxEasy specPrims (zeros (m.length + 16)) m n pk sk = .ok (Spec.NaCl.box pk sk n m) := by
+  rw [boxEasy_eq_easy specPrims _ m n pk sk (by simp [zeros]), model_eq_spec_easy]
+  rfl
+
+theorem model_eq_spec_boxSeal (m rpk esk : Bytes) :
+    boxSeal specPrims (zeros (m.length + 48)) m rpk esk = .ok (Spec.NaCl.boxSeal rpk esk m) := by
+  rw [boxSeal_eq specPrims _ m rpk esk (by simp [zeros])]
+  rfl
+
+/-- opening: the model returns `Ok` with message `m` in an exactly sized buffer iff the
+specification opens to `m` -/
+theorem model_eq_spec_openEasy (buf ct n k m : Bytes) (hbuf : buf.length = ct.length - 16) :
+    openEasy specPrims buf ct n k = ⟨.ok (), m⟩ ↔ Spec.NaCl.secretboxOpen k n ct = some m := by
+  have hd : buf.drop (ct.length - 16) = [] := drop_length_eq_nil hbuf
+  have h2 : ¬ buf.length < ct.length - 16 := by omega
+  rw [openEasy_eq, Spec.NaCl.secretboxOpen]
+  by_cases h1 : ct.length < 16
+  · simp [h1]
+  · simp only [h1, h2, if_false, hd, List.append_nil, expectedTag, cryptXor, specPrims,
+      List.length_drop]
+    by_cases h3 : ct.take 16
+        = Spec.Poly1305.mac ((Spec.Salsa20.xsalsa20Stream k n 0 (32 + (ct.length - 16))).take 32)
+            (ct.drop 16)
+    · simp only [h3, if_true]
+      constructor
+      · intro h; injection h with _ h; rw [h]
+      · intro h; injection h with h; rw [h]
+    · have h3' : ¬ Spec.Poly1305.mac
+          ((Spec.Salsa20.xsalsa20Stream k n 0 (32 + (ct.length - 16))).take 32) (ct.drop 16)
+            = ct.take 16 := fun h => h3 h.symm
+      simp [h3, h3']
+
+/-- acceptance coincides (any sufficiently large buffer) -/
+theorem model_eq_spec_openEasy_accepts (buf ct n k : Bytes) (hbuf : ct.length - 16 ≤ buf.length) :
+    (openEasy specPrims buf ct n k).res = .ok () ↔ (Spec.NaCl.secretboxOpen k n ct).isSome := by
+  have h2 : ¬ buf.length < ct.length - 16 := by omega
+  rw [openEasy_eq, Spec.NaCl.secretboxOpen]
+  by_cases h1 : ct.length < 16
+  · simp [h1]
+  · simp only [h1, h2, if_false, expectedTag, cryptXor, specPrims, List.length_drop]
+    by_cases h3 : ct.take 16
+        = Spec.Poly1305.mac ((Spec.Salsa20.xsalsa20Stream k n 0 (32 + (ct.length - 16))).take 32)
+            (ct.drop 16)
+    · simp [← h3]
+    · have h3' : ¬ Spec.Poly1305.mac
+          ((Spec.Salsa20.xsalsa20Stream k n 0 (32 + (ct.length - 16))).take 32) (ct.drop 16)
+            = ct.take 16 := fun h => h3 h.symm
+      simp [h3, h3']
+
+theorem model_eq_spec_boxOpenEasy (buf ct n pk sk m : Bytes) (hbuf : buf.length = ct.length - 16) :
+    boxOpenEasy specPrims buf ct n pk sk = ⟨.ok (), m⟩ ↔ Spec.NaCl.boxOpen pk sk n ct = some m :=
+  model_eq_spec_openEasy buf ct n _ m hbuf
+
+theorem model_eq_spec_sealOpen (buf ct rpk rsk m : Bytes) (hbuf : buf.length = ct.length - 48) :
+    sealOpen specPrims buf ct rpk rsk = ⟨.ok (), m⟩ ↔ Spec.NaCl.sealOpen rpk rsk ct = some m := by
+  unfold sealOpen Spec.NaCl.sealOpen
+  by_cases h1 : ct.length < 48
+  · simp [SEALBYTES, h1]
+  · have h2 : ¬ buf.length ≠ ct.length - SEALBYTES := by simp [SEALBYTES]; omega
+    simp only [SEALBYTES, h1, if_false] at h2 ⊢
+    simp only [h2, if_false]
+    exact model_eq_spec_boxOpenEasy buf (ct.drop 32) _ (ct.take 32) rsk m (by simp; omega)
+
+/-! ## 5. non-vacuity: every theorem above instantiated with the concrete `toyPrims`
+(all hypotheses are discharged by evaluation, so they are jointly satisfiable) -/
+
+section NonVacuity
+
+example : xorBytes (xorBytes toyMsg [9, 9, 9, 9]) [9, 9, 9, 9] = toyMsg :=
+  xorBytes_involution _ _ (by decide)
+
+example : ∃ ct, easy toyPrims (zeros 19) toyMsg toyNonce toyKey = .ok ct ∧
+    openEasy toyPrims (zeros 3) ct toyNonce toyKey = ⟨.ok (), toyMsg⟩ :=
+  ⟨_, rfl, open_seal_easy toyPrims toyWF (zeros 19) _ _ _ _ _ rfl rfl rfl⟩
+
+example : ∃ ct, easy toyPrims (zeros 19) toyMsg toyNonce toyKey = .ok ct ∧
+    openEasy toyPrims [4, 4, 4, 4, 4] ct toyNonce toyKey = ⟨.ok (), toyMsg ++ [4, 4]⟩ :=
+  ⟨_, rfl, open_seal_easy_oversized toyPrims toyWF (zeros 19) _ _ _ _ _ rfl (by decide) rfl⟩
+
+example : ∃ c tag, detached toyPrims (zeros 3) toyMsg toyNonce toyKey = .ok (c, tag) ∧
+    openDetached toyPrims (zeros 3) tag c toyNonce toyKey = ⟨.ok (), toyMsg⟩ :=
+  ⟨_, _, rfl, open_seal_detached toyPrims toyWF (zeros 3) _ _ _ _ _ _ rfl rfl rfl⟩
+
+example : ∃ ct, easyInplace toyPrims (toyMsg ++ zeros 16) toyNonce toyKey = .ok ct ∧
+    openEasyInplace toyPrims ct toyNonce toyKey = ⟨.ok (), toyMsg ++ ct.take 16⟩ :=
+  ⟨_, rfl, open_seal_easyInplace toyPrims toyWF toyMsg (zeros 16) _ _ _ rfl rfl⟩
+
+example : ∃ c tag, detachedInplace toyPrims toyMsg toyNonce toyKey = (c, tag) ∧
+    openDetachedInplace toyPrims c tag toyNonce toyKey = ⟨.ok (), toyMsg⟩ :=
+  ⟨_, _, rfl, open_seal_detachedInplace toyPrims toyWF toyMsg _ _ _ _ rfl⟩
+
+example : ∃ ct, boxEasy toyPrims (zeros 19) toyMsg toyNonce toyRpk toySsk = .ok ct ∧
+    boxOpenEasy toyPrims (zeros 3) ct toyNonce toyRpk toySsk = ⟨.ok (), toyMsg⟩ :=
+  ⟨_, rfl, open_seal_boxEasy toyPrims toyWF (zeros 19) _ _ _ _ _ _ rfl rfl rfl⟩
+
+example : ∃ c tag, boxDetached toyPrims (zeros 3) toyMsg toyNonce toyRpk toySsk = .ok (c, tag) ∧
+    boxOpenDetached toyPrims (zeros 3) tag c toyNonce toyRpk toySsk = ⟨.ok (), toyMsg⟩ :=
+  ⟨_, _, rfl, open_seal_boxDetached toyPrims toyWF (zeros 3) _ _ _ _ _ _ _ rfl rfl rfl⟩
+
+example : ∃ ct, boxEasyInplace toyPrims (toyMsg ++ zeros 16) toyNonce toyRpk toySsk = .ok ct ∧
+    boxOpenEasyInplace toyPrims ct toyNonce toyRpk toySsk = ⟨.ok (), toyMsg ++ ct.take 16⟩ :=
+  ⟨_, rfl, open_seal_boxEasyInplace toyPrims toyWF toyMsg (zeros 16) _ _ _ _ rfl rfl⟩
+
+example : ∃ c tag, boxDetachedInplace toyPrims toyMsg toyNonce toyRpk toySsk = (c, tag) ∧
+    boxOpenDetachedInplace toyPrims c tag toyNonce toyRpk toySsk = ⟨.ok (), toyMsg⟩ :=
+  ⟨_, _, rfl, open_seal_boxDetachedInplace toyPrims toyWF toyMsg _ _ _ _ _ rfl⟩
+
+/-- sender seals to the recipient's public key, the recipient opens from the sender's public key;
+the DH hypothesis is satisfied by the toy instance -/
+example : ∃ ct, boxEasy toyPrims (zeros 19) toyMsg toyNonce toyRpk toySsk = .ok ct ∧
+    boxOpenEasy toyPrims (zeros 3) ct toyNonce toySpk toyRsk = ⟨.ok (), toyMsg⟩ :=
+  ⟨_, rfl, box_open_seal_of_dh_comm toyPrims toyWF (zeros 19) _ _ _ toySpk toySsk toyRpk toyRsk _
+    (by decide) rfl rfl rfl⟩
+
+example : ∃ c tag, boxDetached toyPrims (zeros 3) toyMsg toyNonce toyRpk toySsk = .ok (c, tag) ∧
+    boxOpenDetached toyPrims (zeros 3) tag c toyNonce toySpk toyRsk = ⟨.ok (), toyMsg⟩ :=
+  ⟨_, _, rfl, boxDetached_open_seal_of_dh_comm toyPrims toyWF (zeros 3) _ _ _ toySpk toySsk toyRpk
+    toyRsk _ _ (by decide) rfl rfl rfl⟩
+
+example : ∃ ct, boxSeal toyPrims (zeros 51) toyMsg toyRpk toyEsk = .ok ct ∧
+    sealOpen toyPrims (zeros 3) ct toyRpk toyRsk = ⟨.ok (), toyMsg⟩ :=
+  ⟨_, rfl, open_seal_boxSeal toyPrims toyWF (zeros 51) _ _ _ _ toyEsk _ (by decide) (by decide)
+    rfl rfl rfl⟩
+
+example : ∃ b, objEncrypt toyPrims toyMsg toyNonce toyKey = .ok b ∧
+    objDecrypt toyPrims b toyNonce toyKey = .ok toyMsg :=
+  ⟨_, rfl, open_seal_obj toyPrims toyWF _ _ _ _ rfl⟩
+
+example : ∃ b, objBoxEncrypt toyPrims toyMsg toyNonce toyRpk toySsk = .ok b ∧
+    objBoxDecrypt toyPrims b toyNonce toyRpk toySsk = .ok toyMsg :=
+  ⟨_, rfl, open_seal_objBox toyPrims toyWF _ _ _ _ _ rfl⟩
+
+example : ∃ b, objBoxEncrypt toyPrims toyMsg toyNonce toyRpk toySsk = .ok b ∧
+    objBoxDecrypt toyPrims b toyNonce toySpk toyRsk = .ok toyMsg :=
+  ⟨_, rfl, objBox_open_seal_of_dh_comm toyPrims toyWF _ _ toySpk toySsk toyRpk toyRsk _
+    (by decide) rfl⟩
+
+example : ∃ b, objSeal toyPrims toyMsg toyRpk toyEsk = .ok b ∧
+    objUnseal toyPrims b toyRpk toyRsk = .ok toyMsg :=
+  ⟨_, rfl, open_seal_objSeal toyPrims toyWF _ _ _ toyEsk _ (by decide) rfl⟩
+
+example : fromBytes (toBytes ⟨none, zeros 16, toyMsg⟩) = .ok ⟨none, zeros 16, toyMsg⟩ :=
+  fromBytes_toBytes _ rfl rfl
+
+example : ∃ b, fromBytes (zeros 16 ++ toyMsg) = .ok b ∧ toBytes b = zeros 16 ++ toyMsg :=
+  ⟨_, rfl, toBytes_fromBytes _ _ rfl⟩
+
+example : fromSealedBytes (toBytes ⟨some toyEsk, zeros 16, toyMsg⟩)
+    = .ok ⟨some toyEsk, zeros 16, toyMsg⟩ :=
+  fromSealedBytes_toBytes _ toyEsk rfl rfl rfl
+
+example : ∃ c tag, detached toyPrims (zeros 3) toyMsg toyNonce toyKey = .ok (c, tag) ∧
+    easy toyPrims (zeros 19) toyMsg toyNonce toyKey = .ok (tag ++ c) :=
+  ⟨_, _, rfl, forms_agree_easy_detached toyPrims (zeros 19) (zeros 3) _ _ _ _ _ rfl rfl rfl⟩
+
+example : detached toyPrims (zeros 3) toyMsg toyNonce toyKey
+    = .ok (detachedInplace toyPrims toyMsg toyNonce toyKey) :=
+  forms_agree_detached_detachedInplace toyPrims _ _ _ _ rfl
+
+example : easyInplace toyPrims (toyMsg ++ [8, 8, 8, 8, 8, 8, 8, 8, 8, 8, 8, 8, 8, 8, 8, 8]) toyNonce toyKey
+    = easy toyPrims (zeros 19) toyMsg toyNonce toyKey :=
+  forms_agree_easyInplace_easy toyPrims _ _ _ _ _ rfl rfl
+
+example : easyInplace toyPrims (toyMsg ++ zeros 16) toyNonce toyKey
+    = easy toyPrims (zeros (toyMsg.length + 16)) toyMsg toyNonce toyKey :=
+  forms_agree_easyInplace_easy_zeros toyPrims _ _ _
+
+example : boxEasy toyPrims (zeros 19) toyMsg toyNonce toyRpk toySsk
+    = easy toyPrims (zeros 19) toyMsg toyNonce (beforenm toyPrims toyRpk toySsk) :=
+  forms_agree_boxEasy_easy toyPrims _ _ _ _ _ (by decide)
+
+example : boxEasy toyPrims (zeros 5) toyMsg toyNonce toyRpk toySsk = .err ∧
+    easy toyPrims (zeros 5) toyMsg toyNonce (beforenm toyPrims toyRpk toySsk) = .panic :=
+  boxEasy_short_buffer toyPrims _ _ _ _ _ (by decide)
+
+example : boxEasyInplace toyPrims (toyMsg ++ zeros 16) toyNonce toyRpk toySsk
+    = easyInplace toyPrims (toyMsg ++ zeros 16) toyNonce (beforenm toyPrims toyRpk toySsk) :=
+  forms_agree_boxEasyInplace_easyInplace toyPrims _ _ _ _ (by decide)
+
+example : ∃ c, boxEasy toyPrims (zeros 19) toyMsg (sealNonce toyPrims (toyPrims.dhBase toyEsk) toyRpk)
+      toyRpk toyEsk = .ok c ∧
+    boxSeal toyPrims (zeros 51) toyMsg toyRpk toyEsk = .ok (toyPrims.dhBase toyEsk ++ c) :=
+  ⟨_, rfl, forms_agree_boxSeal_boxEasy toyPrims (zeros 51) (zeros 19) _ _ _ _ rfl rfl rfl⟩
+
+example : ∃ b, objEncrypt toyPrims toyMsg toyNonce toyKey = .ok b ∧
+    easy toyPrims (zeros 19) toyMsg toyNonce toyKey = .ok (toBytes b) :=
+  ⟨_, rfl, forms_agree_obj_easy toyPrims (zeros 19) _ _ _ _ rfl rfl⟩
+
+example : ∃ b, objSeal toyPrims toyMsg toyRpk toyEsk = .ok b ∧
+    boxSeal toyPrims (zeros 51) toyMsg toyRpk toyEsk = .ok (toBytes b) :=
+  ⟨_, rfl, forms_agree_objSeal_boxSeal toyPrims (zeros 51) _ _ _ _ rfl rfl⟩
+
+example : intoVec ⟨none, zeros 16, toyMsg⟩ = toBytes ⟨none, zeros 16, toyMsg⟩ :=
+  forms_agree_intoVec_toBytes _ rfl
+
+end NonVacuity
 
 end DryocVerif.Properties.C01
